@@ -27,16 +27,14 @@ theorem roundDouble_eq_ite {num : Int} {den : Nat} (hnum : num ≠ 0) (hden : de
   split
   · rfl
   · split
-    · rename_i he
-      simp only [he, if_true]
-    · rename_i he
-      simp only [he, if_false]
+    · rfl
+    · rfl
 
 /-- the overflow test of `roundDouble` on `(m, e)`. -/
 def Ovf (m : Nat) (e : Int) : Prop := e > 971 ∨ (e = 971 ∧ m ≥ 2 ^ 53)
 
 theorem roundDouble_shape {num : Int} {den : Nat} (hnum : num ≠ 0) (hden : 0 < den) :
-    ∃ m e k, PosSpec num.natAbs den m e k ∧
+    ∃ m e k, PosSpec 1074 num.natAbs den m e k ∧
       ((Ovf m e ∧ roundDouble num den = none) ∨
        (¬ Ovf m e ∧ roundDouble num den =
           some ⟨(if num < 0 then -1 else 1) * (magNum (m, e) : Int), magDen (m, e)⟩)) := by
@@ -207,45 +205,47 @@ theorem natAbs_cross {X Z a b : Int} {P rd yd : Nat} (hP : 0 < P) (hX : X * P = 
   exact Nat.le_of_mul_le_mul_right h3 hP
 
 /-- nearest, for a positive input. -/
-theorem nearest_pos {n d m k : Nat} {e : Int} (S : PosSpec n d m e k)
-    (yn : Int) (yd m' : Nat) (e' : Int) (hm' : m' < 2 ^ 53) (he' : -1074 ≤ e')
+theorem nearest_pos {O n d m k : Nat} {e : Int} (S : PosSpec O n d m e k)
+    (yn : Int) (yd m' : Nat) (e' : Int) (hm' : m' < 2 ^ 53) (he' : -(O : Int) ≤ e')
     (hy : if e' ≥ 0 then yn.natAbs = m' * 2 ^ e'.toNat * yd else yn.natAbs * 2 ^ (-e').toNat = m' * yd) :
     ((n : Int) * (magDen (m, e) : Nat) - (magNum (m, e) : Nat) * (d : Int)).natAbs * yd ≤
       ((n : Int) * yd - yn * d).natAbs * magDen (m, e) := by
-  obtain ⟨k', hk'⟩ : ∃ k' : Nat, e' = (k' : Int) - ((1074 : Nat) : Int) := ⟨(e' + 1074).toNat, by omega⟩
-  have F1 := eqPow2_scaled 1074 k (by have := S.hk; omega) (mag_eqPow2 m e)
-  have F2 := eqPow2_scaled 1074 k' hk' hy
-  have c1 := nearest_core (A := n * 2 ^ 1074) (U := d * 2 ^ k) (m := m) (d := d) (k := k) (k' := k') (m' := m') rfl
+  obtain ⟨k', hk'⟩ : ∃ k' : Nat, e' = (k' : Int) - (O : Int) := ⟨(e' + O).toNat, by omega⟩
+  have F1 := eqPow2_scaled O k S.hk (mag_eqPow2 m e)
+  have F2 := eqPow2_scaled O k' hk' hy
+  have c1 := nearest_core (A := n * 2 ^ O) (U := d * 2 ^ k) (m := m) (d := d) (k := k) (k' := k') (m' := m') rfl
     S.half_lo S.half_hi S.lower hm'
-  have c0 := nearest_core (A := n * 2 ^ 1074) (U := d * 2 ^ k) (m := m) (d := d) (k := k) (k' := 0) (m' := 0) rfl
+  have c0 := nearest_core (A := n * 2 ^ O) (U := d * 2 ^ k) (m := m) (d := d) (k := k) (k' := 0) (m' := 0) rfl
     S.half_lo S.half_hi S.lower (by omega)
+  have hP : 0 < 2 ^ O := two_pow_pos' O
   generalize magNum (m, e) = rn at *
   generalize magDen (m, e) = rd at *
-  have F1' : (rn : Int) * (2 ^ 1074 : Nat) = (m : Int) * 2 ^ k * rd := by exact_mod_cast F1
-  have F2' : (yn.natAbs : Int) * (2 ^ 1074 : Nat) = (m' : Int) * 2 ^ k' * yd := by exact_mod_cast F2
-  have hX : ((n : Int) * (rd : Nat) - (rn : Nat) * (d : Int)) * ((2 ^ 1074 : Nat) : Int) =
-      (((n * 2 ^ 1074 : Nat) : Int) - ((m * (d * 2 ^ k) : Nat) : Int)) * (rd : Int) := by
+  generalize 2 ^ O = P at *
+  have F1' : (rn : Int) * (P : Int) = (m : Int) * 2 ^ k * rd := by exact_mod_cast F1
+  have F2' : (yn.natAbs : Int) * (P : Int) = (m' : Int) * 2 ^ k' * yd := by exact_mod_cast F2
+  have hX : ((n : Int) * (rd : Nat) - (rn : Nat) * (d : Int)) * (P : Int) =
+      (((n * P : Nat) : Int) - ((m * (d * 2 ^ k) : Nat) : Int)) * (rd : Int) := by
     push_cast
     linear_combination (-(d : Int)) * F1'
   by_cases hyn : 0 ≤ yn
   · have hya : (yn.natAbs : Int) = yn := by omega
     rw [hya] at F2'
-    have hZ : ((n : Int) * yd - yn * d) * ((2 ^ 1074 : Nat) : Int) =
-        (((n * 2 ^ 1074 : Nat) : Int) - ((m' * 2 ^ k' * d : Nat) : Int)) * (yd : Int) := by
+    have hZ : ((n : Int) * yd - yn * d) * (P : Int) =
+        (((n * P : Nat) : Int) - ((m' * 2 ^ k' * d : Nat) : Int)) * (yd : Int) := by
       push_cast
       linear_combination (-(d : Int)) * F2'
-    exact natAbs_cross (two_pow_pos' 1074) hX hZ c1
+    exact natAbs_cross hP hX hZ c1
   · have hya : (yn.natAbs : Int) = -yn := by omega
     rw [hya] at F2'
-    have hZ : ((n : Int) * yd - yn * d) * ((2 ^ 1074 : Nat) : Int) =
-        (((n * 2 ^ 1074 : Nat) : Int) + ((m' * 2 ^ k' * d : Nat) : Int)) * (yd : Int) := by
+    have hZ : ((n : Int) * yd - yn * d) * (P : Int) =
+        (((n * P : Nat) : Int) + ((m' * 2 ^ k' * d : Nat) : Int)) * (yd : Int) := by
       push_cast
       linear_combination (d : Int) * F2'
-    refine natAbs_cross (two_pow_pos' 1074) hX hZ ?_
+    refine natAbs_cross hP hX hZ ?_
     simp only [Nat.zero_mul, Nat.cast_zero, Int.sub_zero] at c0
     generalize m * (d * 2 ^ k) = X at *
     generalize m' * 2 ^ k' * d = Y at *
-    generalize n * 2 ^ 1074 = A at *
+    generalize n * P = A at *
     omega
 
 theorem roundDouble_nearest_pos (num : Int) (den : Nat) (r : Dbl) (hden : 0 < den) (hnum : 0 < num)
@@ -260,7 +260,7 @@ theorem roundDouble_nearest_pos (num : Int) (den : Nat) (r : Dbl) (hden : 0 < de
     cases h
     have hneg : ¬ num < 0 := by omega
     simp only [hneg, if_false, Int.one_mul]
-    have := nearest_pos S yn yd m' e' hm' he' hy
+    have := nearest_pos S yn yd m' e' hm' (by omega) hy
     have hn : ((num.natAbs : Nat) : Int) = num := by omega
     rw [hn] at this
     exact this
@@ -320,11 +320,52 @@ theorem overflow_iff_core {A U W m k j : Nat} (hW : 0 < W)
         have hodd : ¬ m % 2 = 0 := by omega
         have hnt : ¬ (2 * A = 2 * (m * U) + U) := fun hh => hodd (tie (Or.inr hh))
         have : m * U + U = 2 ^ 53 * U := by
-          have : (m + 1) * U = 2 ^ 53 * U := by rw [hm3]
+          have hm4 : m + 1 = 2 ^ 53 := by omega
+          have : (m + 1) * U = 2 ^ 53 * U := by rw [hm4]
           rw [Nat.add_mul, Nat.one_mul] at this
           exact this
         generalize m * U = X at *
         omega
+
+theorem pow_facts (den j k : Nat) :
+    (k ≤ j → den * 2 ^ k ≤ den * 2 ^ j) ∧ (k = j + 1 → den * 2 ^ k = 2 * (den * 2 ^ j)) ∧
+    (k ≥ j + 2 → 4 * (den * 2 ^ j) ≤ den * 2 ^ k) := by
+  refine ⟨fun hh => Nat.mul_le_mul_left _ (Nat.pow_le_pow_right (by omega) hh), ?_, ?_⟩
+  · intro hh
+    rw [hh, Nat.pow_succ]; ring
+  · intro hh
+    obtain ⟨i, rfl⟩ : ∃ i, k = j + 2 + i := ⟨k - (j + 2), by omega⟩
+    have e1 : den * 2 ^ (j + 2 + i) = 4 * (den * 2 ^ j) * 2 ^ i := by
+      rw [Nat.pow_add, Nat.pow_add _ _ 2]; ring
+    rw [e1]
+    exact Nat.le_mul_of_pos_right _ (two_pow_pos' i)
+
+theorem thr_assoc (c a b den : Nat) : c * (den * 2 ^ (a + b)) = c * 2 ^ a * den * 2 ^ b := by
+  rw [Nat.pow_add]; ring
+
+/-- the overflow test against the threshold, with the offset `O` (= 1074) and `a` (= 970) as parameters. -/
+theorem ovf_iff_thr {O a n den m k : Nat} {e : Int} (ha : (a : Int) + 1 = 971) (hden : 0 < den)
+    (S : PosSpec O n den m e k) : Ovf m e ↔ (2 ^ 54 - 1) * 2 ^ a * den ≤ n := by
+  have hk := S.hk
+  have hW : 0 < den * 2 ^ (a + O) := Nat.mul_pos hden (two_pow_pos' _)
+  obtain ⟨hU1, hU2, hU3⟩ := pow_facts den (a + O) k
+  have core := overflow_iff_core (A := n * 2 ^ O) (U := den * 2 ^ k) (W := den * 2 ^ (a + O)) (m := m)
+    (k := k) (j := a + O) hW hU1 hU2 hU3 S.m_le S.lower S.upper S.half_lo S.half_hi S.tie
+  have hov : Ovf m e ↔ (k ≥ a + O + 2 ∨ (k = a + O + 1 ∧ m ≥ 2 ^ 53)) := by
+    unfold Ovf
+    constructor
+    · rintro (h | ⟨h1, h2⟩)
+      · left; omega
+      · right; exact ⟨by omega, h2⟩
+    · rintro (h | ⟨h1, h2⟩)
+      · left; omega
+      · right; exact ⟨by omega, h2⟩
+  have hthr : (2 ^ 54 - 1) * (den * 2 ^ (a + O)) ≤ n * 2 ^ O ↔ (2 ^ 54 - 1) * 2 ^ a * den ≤ n := by
+    rw [thr_assoc]
+    constructor
+    · intro hh; exact Nat.le_of_mul_le_mul_right hh (two_pow_pos' O)
+    · intro hh; exact Nat.mul_le_mul_right _ hh
+  rw [← hthr, ← core, ← hov]
 
 theorem roundDouble_none_iff' (num : Int) (den : Nat) (hden : 0 < den) :
     roundDouble num den = none ↔ (2 ^ 54 - 1) * 2 ^ 970 * den ≤ num.natAbs := by
@@ -339,43 +380,7 @@ theorem roundDouble_none_iff' (num : Int) (den : Nat) (hden : 0 < den) :
       simp only [Int.natAbs_zero] at h
       omega
   · obtain ⟨m, e, k, S, hcase⟩ := roundDouble_shape hnum hden
-    generalize num.natAbs = n at *
-    have hk := S.hk
-    -- W = den * 2^(970 + 1074)
-    have hW : 0 < den * 2 ^ (970 + 1074) := Nat.mul_pos hden (two_pow_pos' _)
-    have hU1 : k ≤ 970 + 1074 → den * 2 ^ k ≤ den * 2 ^ (970 + 1074) := fun hh =>
-      Nat.mul_le_mul_left _ (Nat.pow_le_pow_right (by omega) hh)
-    have hU2 : k = 970 + 1074 + 1 → den * 2 ^ k = 2 * (den * 2 ^ (970 + 1074)) := by
-      intro hh
-      rw [hh, Nat.pow_succ]; ring
-    have hU3 : k ≥ 970 + 1074 + 2 → 4 * (den * 2 ^ (970 + 1074)) ≤ den * 2 ^ k := by
-      intro hh
-      obtain ⟨i, rfl⟩ : ∃ i, k = 970 + 1074 + 2 + i := ⟨k - (970 + 1074 + 2), by omega⟩
-      have e1 : den * 2 ^ (970 + 1074 + 2 + i) = 4 * (den * 2 ^ (970 + 1074)) * 2 ^ i := by
-        rw [Nat.pow_add, Nat.pow_add _ _ 2]; ring
-      rw [e1]
-      exact Nat.le_mul_of_pos_right _ (two_pow_pos' i)
-    have core := overflow_iff_core (A := n * 2 ^ 1074) (U := den * 2 ^ k) (W := den * 2 ^ (970 + 1074)) (m := m)
-      (k := k) (j := 970 + 1074) hW hU1 hU2 hU3 S.m_le S.lower S.upper S.half_lo S.half_hi S.tie
-    have hov : Ovf m e ↔ (k ≥ 970 + 1074 + 2 ∨ (k = 970 + 1074 + 1 ∧ m ≥ 2 ^ 53)) := by
-      unfold Ovf
-      constructor
-      · rintro (h | ⟨h1, h2⟩)
-        · left; omega
-        · right; exact ⟨by omega, h2⟩
-      · rintro (h | ⟨h1, h2⟩)
-        · left; omega
-        · right; exact ⟨by omega, h2⟩
-    have hthr : (2 ^ 54 - 1) * (den * 2 ^ (970 + 1074)) ≤ n * 2 ^ 1074 ↔ (2 ^ 54 - 1) * 2 ^ 970 * den ≤ n := by
-      have e1 : (2 ^ 54 - 1) * (den * 2 ^ (970 + 1074)) = (2 ^ 54 - 1) * 2 ^ 970 * den * 2 ^ 1074 := by
-        rw [Nat.pow_add]
-        generalize (2 ^ 54 - 1 : Nat) = c
-        ring
-      rw [e1]
-      constructor
-      · intro hh; exact Nat.le_of_mul_le_mul_right hh (two_pow_pos' 1074)
-      · intro hh; exact Nat.mul_le_mul_right _ hh
-    rw [← hthr, ← core, ← hov]
+    rw [← ovf_iff_thr (a := 970) (by omega) hden S]
     rcases hcase with ⟨h1, h2⟩ | ⟨h1, h2⟩
     · rw [h2]; exact ⟨fun _ => h1, fun _ => rfl⟩
     · rw [h2]
@@ -384,6 +389,25 @@ theorem roundDouble_none_iff' (num : Int) (den : Nat) (hden : 0 < den) :
       · intro hh; exact absurd hh h1
 
 /-! ## binary64 values are fixed points -/
+
+/-- a value `m' * 2^e'` with `m' < 2^53`, `e' ≤ 971` is below the overflow threshold (parameters as in `ovf_iff_thr`). -/
+theorem below_thr {O a n den m' k' : Nat} (hden : 0 < den) (hm' : m' < 2 ^ 53) (hk2 : k' ≤ a + O + 1)
+    (F2 : n * 2 ^ O = m' * 2 ^ k' * den) : ¬ (2 ^ 54 - 1) * 2 ^ a * den ≤ n := by
+  intro hthr
+  have h1 : 2 ^ k' ≤ 2 ^ (a + O + 1) := Nat.pow_le_pow_right (by omega) hk2
+  have h2 : (2 ^ 54 - 1) * 2 ^ a * den * 2 ^ O ≤ n * 2 ^ O := Nat.mul_le_mul_right _ hthr
+  rw [← thr_assoc] at h2
+  have e2 : 2 ^ (a + O + 1) = 2 * 2 ^ (a + O) := by rw [Nat.pow_succ, Nat.mul_comm]
+  have h3 : m' * 2 ^ k' * den ≤ (2 ^ 53 - 1) * (2 * 2 ^ (a + O)) * den := by
+    apply Nat.mul_le_mul_right
+    rw [← e2]
+    exact Nat.mul_le_mul (by omega) h1
+  have e3 : (2 ^ 53 - 1) * (2 * 2 ^ (a + O)) * den = ((2 ^ 53 - 1) * 2) * (den * 2 ^ (a + O)) := by
+    generalize (2 ^ 53 - 1 : Nat) = c
+    ring
+  have hW : 0 < den * 2 ^ (a + O) := Nat.mul_pos hden (two_pow_pos' _)
+  generalize den * 2 ^ (a + O) = W at *
+  omega
 
 theorem roundDouble_fixed' (num : Int) (den : Nat) (hden : 0 < den) (m' : Nat) (e' : Int)
     (hm' : m' < 2 ^ 53) (he1 : -1074 ≤ e') (he2 : e' ≤ 971)
@@ -394,25 +418,7 @@ theorem roundDouble_fixed' (num : Int) (den : Nat) (hden : 0 < den) (m' : Nat) (
     have hthr := (roundDouble_none_iff' num den hden).1 hnone
     obtain ⟨k', hk'⟩ : ∃ k' : Nat, e' = (k' : Int) - ((1074 : Nat) : Int) := ⟨(e' + 1074).toNat, by omega⟩
     have F2 := eqPow2_scaled 1074 k' hk' hy
-    generalize num.natAbs = n at *
-    have hk2 : k' ≤ 970 + 1074 + 1 := by omega
-    have h1 : 2 ^ k' ≤ 2 ^ (970 + 1074 + 1) := Nat.pow_le_pow_right (by omega) hk2
-    have h2 : (2 ^ 54 - 1) * 2 ^ 970 * den * 2 ^ 1074 ≤ n * 2 ^ 1074 := Nat.mul_le_mul_right _ hthr
-    have e1 : (2 ^ 54 - 1) * 2 ^ 970 * den * 2 ^ 1074 = (2 ^ 54 - 1) * (den * 2 ^ (970 + 1074)) := by
-      rw [Nat.pow_add]
-      generalize (2 ^ 54 - 1 : Nat) = c
-      ring
-    have e2 : 2 ^ (970 + 1074 + 1) = 2 * 2 ^ (970 + 1074) := by rw [Nat.pow_succ, Nat.mul_comm]
-    have h3 : m' * 2 ^ k' * den ≤ (2 ^ 53 - 1) * (2 * 2 ^ (970 + 1074)) * den := by
-      apply Nat.mul_le_mul_right
-      rw [← e2]
-      exact Nat.mul_le_mul (by omega) h1
-    have e3 : (2 ^ 53 - 1) * (2 * 2 ^ (970 + 1074)) * den = ((2 ^ 53 - 1) * 2) * (den * 2 ^ (970 + 1074)) := by
-      generalize (2 ^ 53 - 1 : Nat) = c
-      ring
-    have hW : 0 < den * 2 ^ (970 + 1074) := Nat.mul_pos hden (two_pow_pos' _)
-    generalize den * 2 ^ (970 + 1074) = W at *
-    omega
+    exact below_thr (a := 970) hden hm' (by omega) F2 hthr
   cases hr : roundDouble num den with
   | none => exact absurd hr hsome
   | some r =>
